@@ -3,7 +3,7 @@
 Correspondence of Model/C03.v with the real Context/TokenManager/MessageManager stack under the virtual loop, of
 Gen/c03_constants.v (translated from numbers/constants.py, error.py) with the real TransportTuning / error classes, and
 the property oracle on the implementation's wire trace and request outcomes."""
-import os, sys, itertools
+import os, sys, itertools, errno
 from fractions import Fraction
 import fw
 from fw import gz, gbool, glist
@@ -15,7 +15,7 @@ DEFAULT_TUNING = [2000000, 3, 2, 4]
 def tun_term(t):
     return "{| ACK_TIMEOUT := %s; ARF_num := %s; ARF_den := %s; MAX_RETRANSMIT := %s |}" % tuple(gz(x) for x in t)
 
-EXN_FLAGS = {"ConRetransmitsExceeded": [True, True], "MessageError": [False, True], "AssertionError": [False, False]}
+EXN_FLAGS = {"ConRetransmitsExceeded": [True, True], "MessageError": [False, True], "AssertionError": [False, False], "NetworkError": [False, True]}
 
 
 class ScriptedUniform:
@@ -59,14 +59,19 @@ class C03(fw.Property):
                   "remote with any mid, and timer firings: <= 1+MAX_RETRANSMIT identical copies, copy k at T0+t(2^k-1) with t in "
                   "[ACK_TIMEOUT, ACK_TIMEOUT*ACK_RANDOM_FACTOR], give-up with ConRetransmitsExceeded exactly at T0+t(2^(R+1)-1) <= MAX_TRANSMIT_WAIT "
                   "when no matching ACK/RST arrives, no copy after a matching ACK/RST (RST fails the request), foreign ACK/RST inert, defaults and "
-                  "derived spans equal to RFC 7252 (formulas translated from constants.py on every run), no internal KeyError/AssertionError.")
+                  "derived spans equal to RFC 7252 (formulas translated from constants.py on every run), no internal KeyError/AssertionError; "
+                  "round 2: no copy after a transport error (dispatch_error) for the remote, cancellation and separate responses are inert for the "
+                  "message layer (documented Examples), all for transports that do not refuse datagrams synchronously; refusing transports are "
+                  "modelled faithfully and refute the give-up / no-internal-error / NSTART statements (vm_compute witnesses, two open findings).")
     level_note = ("The model is hand-written and tied to the code by the differential run (full per-event trace and final exchange table, read from the "
-                  "real objects). Timers are ideal (fire exactly when due). Piggy-backed / separate responses, NON messages, transport errors, "
-                  "shutdown and request cancellation are outside the model's event alphabet (C02/C10/C14/C18). Python computes delays in floats; "
+                  "real objects). Timers are ideal (fire exactly when due). NON messages, observation, shutdown are outside the model's event "
+                  "alphabet (C02/C10/C14/C18). Python computes delays in floats; "
                   "the run uses tunings whose instants are whole microseconds below ~4000 s.")
     rule = ("streams: retransmit = event scripts on the real Context/TokenManager/MessageManager under the virtual loop vs Model/C03.run_trace "
             "(60% focus scenarios: one CON with random/boundary tuning and draw, a disturbance {ACK, RST, wrong-mid ACK/RST, wrong-source ACK/RST, "
-            "duplicate ACK, none} placed at every timer instant k in 0..R+1 with offset -1us / same instant before the callback / same instant "
+            "duplicate ACK, transport error for this / another remote, cancellation, separate NON / CON response, piggy-backed response, "
+            "response with wrong token / source, transport starts refusing (then maybe recovers, maybe a new request), refused backlog release, "
+            "none} placed at every timer instant k in 0..R+1 with offset -1us / same instant before the callback / same instant "
             "after it / +1us, optionally with background CONs to other remotes and backlogged CONs to the same remote; 40% random event lists); "
             "constants = TransportTuning subclasses vs Gen/c03_constants (translated); error_classes = class ancestry vs translated table. "
             "thorough adds the full product tuning x draw x instant x offset x kind for 9 tunings. Non-trivial = at least one retransmission or "
@@ -75,7 +80,9 @@ class C03(fw.Property):
                     "translate/jobs/c03.py (validated by the constants / error_classes streams)",
                     "harness/simloop.py ideal timer service, harness/simnet.py fake transport"]
     assumptions = ["timers fire exactly when due (virtual loop); real selector-loop jitter is not modelled",
-                   "only CON requests and empty ACK/RST datagrams are in the event alphabet of the model"]
+                   "event alphabet of the model: CON requests, empty ACK/RST, 2.05 responses (piggy-backed / separate CON / NON), transport errors, "
+                   "request cancellation, synchronously refusing remotes; the theorems assume a transport that does not refuse synchronously "
+                   "(open findings C03:refused-retransmission:exchange-survives, C03:refused-backlog-release:keyerror, witnesses in Props/C03.v)"]
 
     def setup(self):
         import logging
@@ -137,6 +144,18 @@ class C03(fw.Property):
         elif kind == "ack_wrong_src": evs.append(["recv", rng.choice([1, 2, 3]), False, focus_mid])
         elif kind == "rst_wrong_src": evs.append(["recv", rng.choice([1, 2, 3]), True, focus_mid])
         elif kind == "dup_ack": evs.extend([["recv", 0, False, focus_mid], ["recv", 0, False, focus_mid], ["recv", 0, True, focus_mid]])
+        elif kind == "err": evs.append(["err", 0])
+        elif kind == "err_other": evs.append(["err", rng.choice([1, 2, 3])])
+        elif kind == "cancel": evs.append(["cancel", 0])
+        elif kind == "resp_non": evs.append(["resp", 0, 2, rng.randint(0, 65535), 0])
+        elif kind == "resp_con": evs.append(["resp", 0, 1, rng.randint(0, 65535), 0])
+        elif kind == "resp_ack": evs.append(["resp", 0, 0, focus_mid, 0])
+        elif kind == "resp_wrong": evs.append(["resp", rng.choice([0, 1]), rng.choice([0, 1, 2]), (focus_mid + rng.choice([0, 1])) & 0xFFFF, rng.choice([0, 100, 777])])
+        elif kind == "refuse":
+            evs.append(["refuse", 0, True])
+            if rng.random() < 0.5: evs.extend([["fire"], ["refuse", 0, False]])
+            if rng.random() < 0.5: evs.append(["req", 900, 0, self.rand_tuning(rng)])
+        elif kind == "refuse_ack": evs.extend([["refuse", 0, True], ["recv", 0, False, focus_mid]])
         # let everything run out
         tail = (R + 3) * (1 + nbg) if nbg <= 2 else R + 3 + 2 * nbg
         if rng.random() < 0.5:
@@ -146,13 +165,14 @@ class C03(fw.Property):
             evs.extend([["fire"]] * min(2 * nbg, 8))
         return {"mid0": mid0, "draws": draws, "events": evs}
 
-    KINDS = ["ack", "rst", "ack_wrong_mid", "rst_wrong_mid", "ack_wrong_src", "rst_wrong_src", "none", "dup_ack"]
+    KINDS = ["ack", "rst", "ack_wrong_mid", "rst_wrong_mid", "ack_wrong_src", "rst_wrong_src", "none", "dup_ack",
+             "err", "err_other", "cancel", "resp_non", "resp_con", "resp_ack", "resp_wrong", "refuse", "refuse_ack"]
     OFFS = ["-1", "pre", "post", "+1"]
 
     def random_case(self, rng):
         mid0 = rng.choice([0, 65533, 65535, rng.randint(0, 65535)])
         draws = [rng.choice([0, RNG_DEN, rng.randint(0, RNG_DEN)]) for _ in range(6)]
-        evs = []; nreq = 0; mids = []; mid = mid0; tnow = 0
+        evs = []; nreq = 0; mids = []; mid = mid0; tnow = 0; refuse_ok = rng.random() < 0.3
         for _ in range(rng.randint(3, 40)):
             x = rng.random()
             if x < 0.18 and nreq < 6:
@@ -165,7 +185,12 @@ class C03(fw.Property):
                 elif y < 0.75: m = (m + rng.choice([-1, 1])) & 0xFFFF
                 else: r = rng.choice([0, 1, 2, 3])
                 evs.append(["recv", r, rng.random() < 0.4, m])
-            elif x < 0.55:
+            elif x < 0.44: evs.append(["err", rng.choice([0, 0, 1, 2, 3])])
+            elif x < 0.47 and nreq: evs.append(["cancel", rng.randrange(nreq)])
+            elif x < 0.52 and mids:
+                r, m = rng.choice(mids); evs.append(["resp", r if rng.random() < 0.8 else rng.choice([0, 1, 2]), rng.choice([0, 1, 2]), m if rng.random() < 0.6 else rng.randint(0, 65535), rng.randrange(max(nreq, 1))])
+            elif x < 0.535 and refuse_ok: evs.append(["refuse", rng.choice([0, 0, 1, 2]), rng.random() < 0.6])
+            elif x < 0.60:
                 tnow += rng.choice([1, 1000, 999999, 1000000, 2000000, 3000000, rng.randint(0, 10000000)]); evs.append(["wait", tnow])
             elif x < 0.85: evs.append(["fire"])
             else: evs.append(["firedue"])
@@ -245,7 +270,7 @@ class C03(fw.Property):
         tm.random = simnet.ScriptedRandom(None, 0)
         ctx, tman, mman, mi = simnet.make_stack(loop)
         first_bytes = {}
-        reqs = {}
+        reqs = {}; tokens = {}
         nexc = [0]
         def flush_wire():
             for (t, remote, raw) in mi.take():
@@ -255,11 +280,17 @@ class C03(fw.Property):
                     mid, mtype = m.mid, int(m.mtype)
                 except Exception:
                     rid, mid, mtype = None, None, None
+                if mtype in (2, 3) and raw[1] == 0:          # an empty ACK / RST of ours
+                    log.append(["empty", t, mtype == 3, int(remote.name[1:]), mid]); continue
                 same = first_bytes.setdefault(rid, raw) == raw
                 log.append(["send", t, int(remote.name[1:]), mid, rid if mtype == 0 else ["mtype", mtype, rid], same])
         # FakeMI records at send time but draws are logged at call time: interleave by hooking send
         orig_send = mi.send
+        refusing = set()
         def send(m):
+            if m.remote.name in refusing:
+                # synchronously refusing transport (udp6: sendmsg fails -> error_received -> dispatch_error, all inside send)
+                mman.dispatch_error(OSError(errno.ENETUNREACH, "Network is unreachable"), m.remote); return
             orig_send(m); flush_wire()
         mi.send = send
         steps = []
@@ -274,10 +305,11 @@ class C03(fw.Property):
                     m.remote = simnet.Addr("r%d" % r)
                     with loop.enter():
                         req = ctx.request(m, handle_blockwise=False)
-                    reqs[rid] = req
+                    reqs[rid] = req; tokens[rid] = m
                     def done(f, rid=rid):
-                        e = f.exception() if not f.cancelled() else None
-                        if e is None: done_log.append(["fail", loop.now_us(), rid, "no-exception", False, False])
+                        if f.cancelled(): return
+                        e = f.exception()
+                        if e is None: done_log.append(["result", loop.now_us(), rid])
                         else: done_log.append(["fail", loop.now_us(), rid, type(e).__name__, isinstance(e, error.TimeoutError), isinstance(e, error.NetworkError)])
                     req.response.add_done_callback(done)
                     loop.drain()
@@ -289,6 +321,18 @@ class C03(fw.Property):
                     t = ev[1]; d = loop.next_due()
                     if d is not None: t = min(t, d)
                     loop._now = max(loop._now, t)
+                elif ev[0] == "err":
+                    with loop.enter(): mman.dispatch_error(OSError(errno.ECONNREFUSED, "Connection refused"), simnet.Addr("r%d" % ev[1]))
+                elif ev[0] == "cancel":
+                    if ev[1] in reqs:
+                        with loop.enter(): reqs[ev[1]].response.cancel()
+                elif ev[0] == "resp":
+                    _, r, ty, mid, rid = ev
+                    token = (tokens[rid].token or b"\xee\xee\xee") if rid in tokens else b"\xee\xee\xee"
+                    raw = bytes([0x40 | ({0: 2, 1: 0, 2: 1}[ty] << 4) | len(token), 0x45, (mid >> 8) & 0xFF, mid & 0xFF]) + token + b"\xffok"
+                    simnet.inject(loop, mman, raw, simnet.Addr("r%d" % r))
+                elif ev[0] == "refuse":
+                    (refusing.add if ev[2] else refusing.discard)("r%d" % ev[1])
                 elif ev[0] == "fire":
                     loop.fire_next()
                 elif ev[0] == "firedue":
@@ -327,6 +371,10 @@ class C03(fw.Property):
             if ev[0] == "req": evs.append("ERequest %s %s %s" % (gz(ev[1]), gz(ev[2]), tun_term(ev[3])))
             elif ev[0] == "recv": evs.append("ERecv %s %s %s" % (gz(ev[1]), gbool(ev[2]), gz(ev[3])))
             elif ev[0] == "wait": evs.append("EWaitUntil %s" % gz(ev[1]))
+            elif ev[0] == "err": evs.append("EError %s" % gz(ev[1]))
+            elif ev[0] == "cancel": evs.append("ECancel %s" % gz(ev[1]))
+            elif ev[0] == "resp": evs.append("EResponse %s %s %s %s" % tuple(gz(x) for x in ev[1:]))
+            elif ev[0] == "refuse": evs.append("ERefuse %s %s" % (gz(ev[1]), gbool(ev[2])))
             elif ev[0] == "fire": evs.append("EFire")
             else: evs.append("EFireDue")
         return "run_trace %s %s %s" % (gz(inp["mid0"]), glist([gz(d) for d in inp["draws"]]), glist(evs))
@@ -353,6 +401,8 @@ class C03(fw.Property):
                     m = a[1]; entries.append(["send", a[0], m["m_remote"], m["m_mid"], m["m_rid"], True])
                 elif x.name == "OFail":
                     nm = a[2].name; entries.append(["fail", a[0], a[1], nm] + EXN_FLAGS.get(nm, [None, None]))
+                elif x.name == "OResult": entries.append(["result", a[0], a[1]])
+                elif x.name == "OEmpty": entries.append(["empty"] + list(a))
                 else: entries.append(["error", a[0], a[1].name])
             steps.append(canon_step(entries))
         return {"steps": steps, "exchanges": sorted(list(e) for e in ex), "backlogs": sorted(list(b) for b in bl),
@@ -393,20 +443,44 @@ class C03(fw.Property):
         return None
 
     def oracle_retransmit(self, inp, res):
-        tun = {}; remote_of = {}
-        info = {}     # rid -> dict(times, mid, t, state)   state in open/acked/reset/timedout
-        now = 0
+        """The property, recomputed from the input on the observed trace.  A remote on which a RETRANSMISSION was refused by the
+        transport is `tainted`: the code keeps the exchange (open finding); every deviation that involves such a remote is reported
+        under the finding's own signature."""
+        tun = {}; remote_of = {}; pending = {}      # pending: request still waiting in the token manager
+        info = {}     # rid -> dict(times, mid, t, state)   state in open/acked/reset/timedout/errored
+        refusing = set(); tainted = set()
+        def V(sig, msg, r=None):
+            if r is not None and r in tainted:
+                return ("C03:refused-retransmission:exchange-survives", "[after a refused retransmission to remote %d] %s: %s" % (r, sig, msg))
+            return (sig, msg)
         for ev, step in zip(inp["events"], res["steps"]):
             sends = [e for e in step if e[0] == "send"]; fails = [e for e in step if e[0] == "fail"]
-            draws = [e for e in step if e[0] == "draw"]; errors = [e for e in step if e[0] == "error"]
-            if errors: return ("C03:internal-exception:" + str(errors[0][2]), "exception %s escaped during %s" % (errors[0][2], ev))
-            if ev[0] == "req": tun[ev[1]] = ev[3]; remote_of[ev[1]] = ev[2]
+            results = [e for e in step if e[0] == "result"]; errors = [e for e in step if e[0] == "error"]
+            if ev[0] == "refuse": (refusing.add if ev[2] else refusing.discard)(ev[1])
+            if errors:
+                nm = str(errors[0][2])
+                if nm == "KeyError" and ev[0] in ("recv", "resp") and ev[1] in refusing:
+                    return ("C03:refused-backlog-release:keyerror", "KeyError out of _continue_backlog: the release of a backlogged message to remote %d was refused by the transport during %s" % (ev[1], ev))
+                if tainted and ev[0] in ("fire", "firedue"):
+                    return V("C03:internal-exception:" + nm, "exception %s in the timer callback" % nm, sorted(tainted)[0])
+                return ("C03:internal-exception:" + nm, "exception %s escaped during %s" % (nm, ev))
+            if ev[0] == "req": tun[ev[1]] = ev[3]; remote_of[ev[1]] = ev[2]; pending[ev[1]] = True
+            if ev[0] == "cancel" and ev[1] in pending: pending[ev[1]] = False
             matched = None
-            if ev[0] == "recv":
+            if ev[0] == "recv" or (ev[0] == "resp" and ev[2] == 0):
+                mid = ev[3]
                 for rid, x in info.items():
-                    if x["state"] == "open" and remote_of[rid] == ev[1] and x["mid"] == ev[3]: matched = rid
-                if matched is None and (fails or [s for s in sends if s[4] in info]):
-                    return ("C03:foreign-ack-changed-exchange", "%s matches no outstanding exchange but caused %s" % (ev, step))
+                    if x["state"] == "open" and remote_of[rid] == ev[1] and x["mid"] == mid: matched = rid
+                if ev[0] == "recv" and matched is None and (fails or [s for s in sends if s[4] in info]):
+                    return V("C03:foreign-ack-changed-exchange", "%s matches no outstanding exchange but caused %s" % (ev, step), ev[1])
+            # responses: exactly the pending request with that token towards that remote completes
+            answered = None
+            if ev[0] == "resp" and pending.get(ev[4]) and remote_of.get(ev[4]) == ev[1]: answered = ev[4]
+            for e in results:
+                if e[2] != answered: return ("C03:spurious-result", "request %s completed with a response during %s" % (e[2], ev))
+            if answered is not None:
+                if not results: return ("C03:response-not-delivered", "%s did not complete request %d" % (ev, answered))
+                pending[answered] = False
             timed_out_remotes = set()
             pending_draw = None
             for e in step:
@@ -416,7 +490,7 @@ class C03(fw.Property):
                 if not isinstance(rid, int) or rid not in tun:
                     return ("C03:unexpected-datagram", "datagram %s is not a copy of a submitted CON" % (e,))
                 A, num, den, R = tun[rid]
-                if not same: return ("C03:copies-differ", "copy of request %d at %d differs from the first transmission" % (rid, t))
+                if not same: return V("C03:copies-differ", "copy of request %d at %d differs from the first transmission" % (rid, t), r)
                 x = info.get(rid)
                 if x is None:
                     if pending_draw is None: return ("C03:no-initial-timeout-drawn", "first copy of %d without random.uniform call" % rid)
@@ -426,64 +500,103 @@ class C03(fw.Property):
                     if r != remote_of[rid]: return ("C03:wrong-remote", "request %d sent to %d" % (rid, r))
                     info[rid] = {"times": [t], "mid": mid, "t": v, "state": "open"}
                     continue
-                if x["state"] == "acked": return ("C03:copy-after-ack", "request %d retransmitted at %d after its ACK" % (rid, t))
-                if x["state"] == "reset": return ("C03:copy-after-rst", "request %d retransmitted at %d after its RST" % (rid, t))
-                if x["state"] == "timedout": return ("C03:copy-after-giveup", "request %d retransmitted at %d after giving up" % (rid, t))
-                if mid != x["mid"] or r != remote_of[rid]: return ("C03:copies-differ", "copy of %d with other mid/remote" % rid)
+                if x["state"] == "acked": return V("C03:copy-after-ack", "request %d retransmitted at %d after its ACK" % (rid, t), r)
+                if x["state"] == "reset": return V("C03:copy-after-rst", "request %d retransmitted at %d after its RST" % (rid, t), r)
+                if x["state"] == "timedout": return V("C03:copy-after-giveup", "request %d retransmitted at %d after giving up" % (rid, t), r)
+                if x["state"] == "errored": return V("C03:copy-after-transport-error", "request %d retransmitted at %d after the transport error that failed it" % (rid, t), r)
+                if mid != x["mid"] or r != remote_of[rid]: return V("C03:copies-differ", "copy of %d with other mid/remote" % rid, r)
                 if len(x["times"]) >= 1 + R:
-                    return ("C03:too-many-copies", "request %d: transmission %d at %d exceeds 1+MAX_RETRANSMIT=%d" % (rid, len(x["times"]) + 1, t, 1 + R))
+                    return V("C03:too-many-copies", "request %d: transmission %d at %d exceeds 1+MAX_RETRANSMIT=%d" % (rid, len(x["times"]) + 1, t, 1 + R), r)
                 gap = t - x["times"][-1]
                 if len(x["times"]) == 1:
                     if not (A <= gap and gap * den <= A * num):
-                        return ("C03:initial-timeout-out-of-range", "request %d: first gap %d us outside [%d, %d*%d/%d]" % (rid, gap, A, A, num, den))
-                    if gap != x["t"]: return ("C03:initial-timeout-not-the-drawn-one", "request %d: first gap %d, drawn %s" % (rid, gap, x["t"]))
+                        return V("C03:initial-timeout-out-of-range", "request %d: first gap %d us outside [%d, %d*%d/%d]" % (rid, gap, A, A, num, den), r)
+                    if gap != x["t"]: return V("C03:initial-timeout-not-the-drawn-one", "request %d: first gap %d, drawn %s" % (rid, gap, x["t"]), r)
                 else:
                     prev = x["times"][-1] - x["times"][-2]
-                    if gap != 2 * prev: return ("C03:gap-not-doubled", "request %d: gap %d after gap %d" % (rid, gap, prev))
+                    if gap != 2 * prev: return V("C03:gap-not-doubled", "request %d: gap %d after gap %d" % (rid, gap, prev), r)
                 x["times"].append(t)
             if matched is not None:
-                x = info[matched]
+                x = info[matched]; is_rst = (ev[0] == "recv" and ev[2])
                 if [s for s in sends if s[4] == matched]:
-                    return ("C03:copy-after-ack" if not ev[2] else "C03:copy-after-rst", "request %d sent again in the step of its own %s" % (matched, ev))
-                mine = [f for f in fails if f[2] == matched]
-                if ev[2]:
-                    if len(mine) != 1 or mine[0][3] != "MessageError" or not mine[0][5]:
-                        return ("C03:rst-did-not-fail-request", "RST for request %d gave %s" % (matched, mine))
-                    x["state"] = "reset"
+                    return V("C03:copy-after-rst" if is_rst else "C03:copy-after-ack", "request %d sent again in the step of its own %s" % (matched, ev), ev[1])
+                mine = [f for f in fails if f[2] == matched and f[3] != "NetworkError"]
+                if is_rst:
+                    if pending.get(matched) and (len(mine) != 1 or mine[0][3] != "MessageError" or not mine[0][5]):
+                        return V("C03:rst-did-not-fail-request", "RST for request %d gave %s" % (matched, mine), ev[1])
+                    if not pending.get(matched) and mine: return ("C03:spurious-fail", "RST failed request %d which was no longer pending" % matched)
+                    x["state"] = "reset"; pending[matched] = False
                 else:
-                    if mine: return ("C03:ack-failed-request", "ACK for request %d gave %s" % (matched, mine))
+                    if mine: return V("C03:ack-failed-request", "ACK for request %d gave %s" % (matched, mine), ev[1])
                     x["state"] = "acked"
-                fails = [f for f in fails if f[2] != matched]
+                fails = [f for f in fails if not (f[2] == matched and f[3] != "NetworkError")]
+            # transport errors: reported asynchronously ("err") or from inside send() of a refusing transport
+            net = [f for f in fails if f[3] == "NetworkError"]
+            err_remotes = set()
+            if ev[0] == "err": err_remotes.add(ev[1])
+            for f in net:
+                r = remote_of.get(f[2])
+                if not f[5]: return ("C03:transport-error-wrong-class", "%s is not a NetworkError" % f[3])
+                if r not in refusing and not (ev[0] == "err" and ev[1] == r):
+                    return V("C03:spurious-fail", "request %d failed with NetworkError during %s although its remote neither refuses nor reported an error" % (f[2], ev), r)
+                if not pending.get(f[2]): return V("C03:spurious-fail", "request %d failed although it was no longer pending" % f[2], r)
+                err_remotes.add(r)
+                if ev[0] in ("fire", "firedue"): tainted.add(r)      # a refused retransmission
+            for r in err_remotes:
+                for rid in list(pending):
+                    if remote_of[rid] == r and pending[rid]:
+                        if not [f for f in net if f[2] == rid]:
+                            return V("C03:transport-error-did-not-fail-request", "request %d towards remote %d still pending after the transport error in %s" % (rid, r, ev), r)
+                        pending[rid] = False
+                for rid, x in info.items():
+                    if remote_of[rid] == r and x["state"] == "open": x["state"] = "errored"
+            fails = [f for f in fails if f[3] != "NetworkError"]
             for f in fails:
                 _, t, rid, name, is_to, is_net = f
-                x = info.get(rid)
-                if name != "ConRetransmitsExceeded": return ("C03:spurious-fail", "request %d failed with %s during %s" % (rid, name, ev))
+                x = info.get(rid); r = remote_of.get(rid)
+                if name != "ConRetransmitsExceeded": return V("C03:spurious-fail", "request %d failed with %s during %s" % (rid, name, ev), r)
                 if not (is_to and is_net): return ("C03:timeout-wrong-class", "%s is not a TimeoutError/NetworkError" % name)
+                if not pending.get(rid): return V("C03:spurious-fail", "request %d failed although it was no longer pending" % rid, r)
                 if x is not None and x["state"] == "open":
                     A, num, den, R = tun[rid]
                     last_gap = (x["times"][-1] - x["times"][-2]) if len(x["times"]) > 1 else None
-                    if len(x["times"]) != 1 + R:
-                        return ("C03:gave-up-early", "request %d failed after %d transmissions, MAX_RETRANSMIT=%d" % (rid, len(x["times"]), R))
                     expect = x["times"][-1] + (2 * last_gap if last_gap is not None else x["t"])
-                    if t != expect: return ("C03:timeout-at-wrong-time", "request %d failed at %d, expected %d" % (rid, t, expect))
+                    own = (len(x["times"]) == 1 + R and t == expect)
+                    silent = [y for y, z in info.items() if y != rid and remote_of[y] == r and z["state"] == "open" and not pending.get(y)
+                              and len(z["times"]) == 1 + tun[y][3] and t == z["times"][0] + z["t"] * (2 ** (tun[y][3] + 1) - 1)]
+                    if not own and silent: continue          # collateral of another exchange's give-up (handled below)
+                    if len(x["times"]) != 1 + R:
+                        return V("C03:gave-up-early", "request %d failed after %d transmissions, MAX_RETRANSMIT=%d" % (rid, len(x["times"]), R), r)
+                    if t != expect: return V("C03:timeout-at-wrong-time", "request %d failed at %d, expected %d" % (rid, t, expect), r)
                     if (t - x["times"][0]) * den > A * (2 ** (R + 1) - 1) * num:
                         return ("C03:timeout-after-max-transmit-wait", "request %d failed %d us after first copy" % (rid, t - x["times"][0]))
-                    x["state"] = "timedout"; timed_out_remotes.add(remote_of[rid])
+                    x["state"] = "timedout"; timed_out_remotes.add(r); pending[rid] = False
             for f in fails:      # collateral failures (O5): only together with a give-up towards the same remote
-                rid = f[2]; x = info.get(rid)
-                if (x is None or x["state"] in ("acked",)) and remote_of.get(rid) not in timed_out_remotes:
-                    return ("C03:spurious-fail", "request %d failed with %s although nothing towards its remote gave up" % (rid, f[3]))
-                if x is not None and x["state"] == "acked": x["state"] = "acked"
+                rid = f[2]; x = info.get(rid); r = remote_of.get(rid)
+                if not pending.get(rid): continue
+                silent = [y for y, z in info.items() if remote_of[y] == r and z["state"] == "open" and not pending.get(y)
+                          and len(z["times"]) == 1 + tun[y][3] and f[1] == z["times"][0] + z["t"] * (2 ** (tun[y][3] + 1) - 1)]
+                for y in silent: info[y]["state"] = "timedout"; timed_out_remotes.add(r)
+                if r not in timed_out_remotes:
+                    return V("C03:spurious-fail", "request %d failed with %s although nothing towards its remote gave up" % (rid, f[3]), r)
+                pending[rid] = False
+                if x is not None and x["state"] == "open": x["state"] = "timedout"     # its backlogged / own exchange went with the remote's
         # end state: every open exchange still has its timer at the predicted instant; nothing else is pending
-        expect = []
+        expect = []; optional = []
         for rid, x in info.items():
             if x["state"] == "open":
-                k = len(x["times"])
+                k = len(x["times"]); R = tun[rid][3]
                 due = x["times"][0] + x["t"] * (2 ** k - 1)
-                expect.append([remote_of[rid], x["mid"], due, x["t"] * 2 ** (k - 1), k - 1])
-                if res["now"] > due: return ("C03:missed-retransmission", "request %d: clock %d passed its timer at %d" % (rid, res["now"], due))
-        if sorted(expect) != res["exchanges"]:
-            return ("C03:exchange-table-unexpected", "pending exchanges %s, property predicts %s" % (res["exchanges"], sorted(expect)))
+                entry = [remote_of[rid], x["mid"], due, x["t"] * 2 ** (k - 1), k - 1]
+                if not pending.get(rid) and k == 1 + R and res["now"] >= due:
+                    if res["now"] == due: optional.append(entry)      # a give-up that fails nobody leaves no trace
+                    continue
+                expect.append(entry)
+                if res["now"] > due: return V("C03:missed-retransmission", "request %d: clock %d passed its timer at %d" % (rid, res["now"], due), remote_of[rid])
+        got = [e for e in res["exchanges"] if e not in optional]
+        if sorted(expect) != got:
+            rs = sorted({e[0] for e in got} | {e[0] for e in expect})
+            return V("C03:exchange-table-unexpected", "pending exchanges %s, property predicts %s" % (res["exchanges"], sorted(expect)), next((r for r in rs if r in tainted), None))
         if res["timers"] != len(res["exchanges"]):
             return ("C03:stray-timer", "%d loop timers for %d exchanges" % (res["timers"], len(res["exchanges"])))
         return None
@@ -499,12 +612,12 @@ class C03(fw.Property):
 
 done_log = []
 def done_log_take():
-    x = sorted(done_log, key=lambda e: (e[2], e[1])); del done_log[:]; return x
+    x = list(done_log); del done_log[:]; return x
 
 def canon_step(entries):
     """draws and sends in emission order, then request failures by request id, then escaped exceptions"""
-    a = [e for e in entries if e[0] in ("draw", "send")]
-    f = sorted([e for e in entries if e[0] == "fail"], key=lambda e: (e[2], e[1]))
+    a = [e for e in entries if e[0] in ("draw", "send", "empty")]
+    f = sorted([e for e in entries if e[0] in ("fail", "result")], key=lambda e: (e[2], e[1]))
     x = [e for e in entries if e[0] == "error"]
     return a + f + x
 
